@@ -216,13 +216,20 @@ class MCLevyCopulaSimulation:
         grid = self.process.grid
         sample = self.process.sampling.sample
         pivot_position = grid.origin_coordinate
+        dim = self.process.model.dimension()
+        running_value = np.zeros(dim)
         for k, nb_of_jumps in enumerate(all_nb_of_jumps):
             states_increments = sample(size=nb_of_jumps)
-            xy = (
+            xy = [
                 grid[pivot_position + state_increment]
                 for state_increment in states_increments
+            ]
+            # running sum of the sampled states over the whole path: it goes on from one time interval to the next
+            all_values[k] = running_value + np.cumsum(
+                np.array(xy, dtype=float).reshape(len(xy), dim), axis=0
             )
-            all_values[k] = np.cumsum(np.array(list(xy)), axis=0)
+            if len(xy):
+                running_value = all_values[k][-1]
             all_states_increments[k] = states_increments
 
         return all_values, all_states_increments
@@ -244,9 +251,7 @@ class MCLevyCopulaSimulationFixedTimes(MCLevyCopulaSimulation, SimulationFixedTi
     def simulate_one_path(self) -> StochasticPath:
         # simulate the jump values
         simulated_jumps = self.simulate_jumps()
-        jumps = np.hstack(
-            (np.zeros(self._dimension)[:, np.newaxis], simulated_jumps[:, np.newaxis])
-        )
+        jumps = np.hstack((np.zeros(self._dimension)[:, np.newaxis], simulated_jumps))
 
         # simulate the diffusion part
         simulated_diffusion = self.simulate_diffusion_part()
@@ -266,11 +271,14 @@ class MCLevyCopulaSimulationFixedTimes(MCLevyCopulaSimulation, SimulationFixedTi
 
     @staticmethod
     def project(values, dim):
-        zero = (0.0,) * dim
-        definitive_values = (
-            sliceStates[-1] if sliceStates.size else zero for sliceStates in values
-        )
-        return np.array(*definitive_values)
+        """value of the jump component at each time: the last state reached so far (one column per time)"""
+        definitive_values = np.zeros(shape=(dim, len(values)))
+        current_value = np.zeros(dim)
+        for k, slice_states in enumerate(values):
+            if slice_states.size:
+                current_value = slice_states[-1]
+            definitive_values[:, k] = current_value
+        return definitive_values
 
     def simulate_jumps(self):
         mc = self.simulate_markov_chain()
@@ -340,7 +348,7 @@ class MCLevyCopulaSimulationWithJumpTimes(
 
     def simulate_jumps(self):
         mc = self.simulate_markov_chain()
-        jump_values = np.concatenate(mc.values, axis=-1).T
+        jump_values = np.concatenate(mc.values, axis=0).T
         jump_times = mc.times
         return jump_times, jump_values
 
